@@ -209,14 +209,17 @@ def inline_new_functions(prog):
     report = {}
     for u in prog.units:
         new = {}
+        cur_keys = {b.j["key"] for b in u.bodies.values()}
+        moved_names = {x.split("|", 1)[1].rsplit("::", 1)[-1] for x in known
+                       if x.startswith(u.name + "|") and x.split("|", 1)[1] not in cur_keys and "{closure" not in x}
         for k, b in u.bodies.items():
             if "%s|%s" % (u.name, b.j["key"]) in known or _is_test_key(b.j["key"]) or b.j.get("coroutine"):
                 continue
             if len(b.blocks) > MAX_BLOCKS:
                 continue
-            if not b.is_closure and b.name in prog.opaque_names():
-                # a function the rules know BY NAME (it merely moved, e.g. from a free function into an impl): it keeps
-                # its identity and is checked on its own
+            if not b.is_closure and b.name in moved_names:
+                # it has the name of a pinned function that is gone (the function moved and changed its signature on
+                # the way, e.g. a free function became a method): it keeps its identity and is checked on its own
                 continue
             new[b.j["key"]] = b
         if not new:
